@@ -50,6 +50,9 @@ func genC07(t *rapid.T) CaseC07 {
 		sh := genRootShape(t, lil)
 		c.Map = instantiate(t, sh).(map[string]interface{})
 		c.Steps = genShapePath(t, sh, indexed)
+		if rapid.IntRange(0, 9).Draw(t, "colonize") == 0 {
+			colonize(t, c.Map)
+		}
 	}
 	if rapid.IntRange(0, 7).Draw(t, "wrapdeep") == 0 && len(c.Steps) > 0 {
 		c.Src += "+deep"
